@@ -105,6 +105,7 @@ FAMILIES["hints"] = dict(SOLVE_FAMILY, rule="as `solve` but every package carrie
     "so hinted candidates are frequently already false when a requirement first reveals them and are selected later after backtracking (the eager-encoding paths of the encoder)")
 FAMILIES["cancel"] = dict(SOLVE_FAMILY, rule="universes of all shapes (general/tight/hinted/soft/lazy); the uncancelled run is measured first and a cancellation plan drawn from it: the signal is up at poll k (k uniform over all polls of the run, incl. never), "
     "or goes up while provider request number j is being served (j uniform over all requests); 1/3 transient (up only at that poll / until the next request starts)")
+FAMILIES["cancel-async"] = dict(SOLVE_FAMILY, rule="as `cancel` with an asynchronous provider (1/2 of the cases with asynchronous filter/sort too) under a FIFO / LIFO / seeded random completion order; the cancellation plan is drawn from the uncancelled run under the same schedule, so the signal can strike while several requests (incl. the members of a union requirement) are in flight")
 FAMILIES["reuse"] = dict(SOLVE_FAMILY, rule="2-4 solves on ONE solver over a generated universe (same problem again, or new requirements / constraints / soft lists), sync runtime; half of the cases with a transient cancellation placed at a random poll or provider request of the uncancelled history, so later solves run after a Cancelled (and after Unsolvable) outcome")
 FAMILIES["reuse-async"] = dict(SOLVE_FAMILY, rule="as `reuse` with an asynchronous provider: every get_candidates / get_dependencies (1/3: also filter/sort) is a future completed by a manual single-threaded executor according to a schedule (FIFO, LIFO, seeded random); cancellation can strike while requests are in flight")
 FAMILIES["async"] = dict(SOLVE_FAMILY, rule="one solve with an asynchronous provider under a manual single-threaded executor that completes one outstanding request at a time (FIFO / LIFO / seeded random schedules; 1/3 with filter_candidates and sort_candidates also asynchronous); the pending set at every quiescent point and every completion are recorded")
@@ -234,19 +235,19 @@ PROPS = {
     },
     "C10": {
         "nt_rule": "async3",
-        "level": "other", "module": "Resolvo.Props.C10", "theorems": ["Resolvo.C10.verdict_reference"],
+        "level": "other", "module": "Resolvo.Props.C10", "theorems": ["Resolvo.C10.request_guard", "Resolvo.MDet.listener_issues_nothing", "Resolvo.MDet.pollCands_spec", "Resolvo.C10.verdict_reference"],
         "families": [("async", {"quick": 8000, "thorough": 150000}), ("reuse-async", {"quick": 4000, "thorough": 80000}), ("async-cf", {"quick": 4000, "thorough": 80000})],
         "explanation": "MODEL: MDet/Async.lean models Encoder::encode with a suspending provider exactly - FuturesUnordered's ready queue, the in-flight marker and Event listeners of get_or_cache_candidates, try_join_all over the version sets of a requirement, and the executor's quiescent points - for a single-threaded executor that completes one outstanding request at a time; the schedule (completion order) is an input. "
-                       "TIE (every async case with synchronous filter/sort, 2/3 of the family): result, solution order, provider call log with the start (c/d) and answer-obtained (C/D) markers and cancellation polls, the executor's event log (`pending <set>` at every quiescent point, `complete <label>`) and the complete solver history are compared for exact equality with the real solver run under the same completion order (FIFO, LIFO, seeded random schedules; also after Cancelled/Unsolvable solves on a reused solver). "
-                       "CHECKED PER RUN on every case incl. asynchronous filter/sort: validB on every answer, verdict = verified decideSolvable (= sync verdict), no provider request issued twice within a solve and none repeated once answered, no deadlock (solver pending with nothing outstanding), no panic. PROVED: exactness of the verdict reference; the checked-model theorems of C01/C02/C05 apply to the async model's answers as to the sync model's (they quantify over the model's output). NOT PROVED: invariants of the async model itself (at-most-once, quiescent-point concurrency) are evaluated per run, not yet theorems; waker delivery and cooperative yielding of real multi-threaded executors are outside the model.",
+                       "TIE (every async case, incl. asynchronous filter/sort - their gates are modelled as two further suspension stages of a requirement's children): result, solution order, provider call log with the start (c/d) and answer-obtained (C/D) markers and cancellation polls, the executor's event log (`pending <set>` at every quiescent point, `complete <label>`) and the complete solver history are compared for exact equality with the real solver run under the same completion order (FIFO, LIFO, seeded random schedules; also after Cancelled/Unsolvable solves on a reused solver). "
+                       "CHECKED PER RUN on every case incl. asynchronous filter/sort: validB on every answer, verdict = verified decideSolvable (= sync verdict), no provider request issued twice within a solve and none repeated once answered, no deadlock (solver pending with nothing outstanding), no panic. PROVED (step level, all universes/states): a get_candidates request is issued only when the answer is neither cached nor in flight and is in flight afterwards (request_guard), an await that finds a request in flight issues nothing (listener_issues_nothing); exactness of the verdict reference; the checked-model theorems of C01/C02/C05 apply to the async model's answers as to the sync model's. NOT PROVED: the run-level invariants (no request twice in a whole solve) are evaluated per run; waker delivery and cooperative yielding of real multi-threaded executors are outside the model.",
         "assumptions": ["single-threaded executor that wakes a task only when the future it is parked on completes"],
     },
     "C11": {
         "nt_rule": "async3",
-        "level": "other", "module": "Resolvo.Props.C10", "theorems": [],
-        "families": [("async", {"quick": 8000, "thorough": 150000}), ("reuse-async", {"quick": 4000, "thorough": 80000}), ("async-cf", {"quick": 4000, "thorough": 80000})],
+        "level": "other", "module": "Resolvo.Props.C10", "theorems": ["Resolvo.C10.req_future_starts_every_version_set", "Resolvo.MDet.pollChildren_started", "Resolvo.MDet.pollChild_started"],
+        "families": [("async", {"quick": 8000, "thorough": 150000}), ("reuse-async", {"quick": 4000, "thorough": 80000}), ("async-cf", {"quick": 4000, "thorough": 80000}), ("cancel-async", {"quick": 6000, "thorough": 100000})],
         "explanation": "MODEL + TIE: as C10 - the async encoder model reproduces the set of outstanding provider requests at every quiescent point of the real solver exactly (`pending ...` events compared for equality under the same completion order), so a change that serialises independent requests changes the pending sets and breaks the correspondence. "
-                       "ORACLE on the implementation's own log: c11Check requires every get_candidates request implied by dependency information already received (the root's, and that of every solvable whose get_dependencies has completed) to be outstanding or answered at every quiescent point - in particular a root with k requirements on distinct packages has k candidate requests in flight at the first quiescent point. No theorem about the model's concurrency yet; claimed as exploration with an executable oracle and an exact model.",
+                       "ORACLE on the implementation's own log: c11Check requires every get_candidates request implied by dependency information already received (the root's, and that of every solvable whose get_dependencies has completed) to be outstanding or answered at every quiescent point - in particular a root with k requirements on distinct packages has k candidate requests in flight at the first quiescent point. PROVED (one future, all universes/states): one poll of the future of a requirement starts every version set of it - finished, request issued, listening, or parked on a filter/sort gate (req_future_starts_every_version_set). The run-level statement (every pushed future is polled before the executor sees Pending) is checked per run through the pending sets.",
     },
     "C13": {
         "nt_rule": "multi",
@@ -259,10 +260,10 @@ PROPS = {
         "nt_rule": "cancelled",
         "level": "other", "module": "Resolvo.Props.C12",
         "theorems": ["Resolvo.C12.poll_fires", "Resolvo.C12.poll_transparent", "Resolvo.C12.no_deps_request_after_signal", "Resolvo.C12.no_cands_request_after_signal"],
-        "families": [("cancel", {"quick": 8000, "thorough": 150000})],
+        "families": [("cancel", {"quick": 8000, "thorough": 150000}), ("cancel-async", {"quick": 6000, "thorough": 100000}), ("reuse-async", {"quick": 4000, "thorough": 80000})],
         "explanation": "PROVED on the model: a poll that sees the signal aborts the solve with exactly the provider's value and logs nothing else; a poll that does not see it only increments the poll counter (transparency); an uncached get_dependencies / get_candidates whose preceding poll sees the signal is never issued. "
                        "TIE: exact equality of result, cancellation value and the provider call log *including every poll in order* between MDet and the real solver, under cancellation plans drawn from the uncancelled run (signal up at poll k for every k incl. never; signal raised while provider request j is served; persistent and transient). "
-                       "ORACLES on the implementation's own log: observed signal => Cancelled with that value, no request after observation, no request after the signal went up, persistent signal never ignored. Async runs with requests in flight: see C10/C13 families.",
+                       "ORACLES on the implementation's own log: observed signal => Cancelled with that value, no request after observation, no request after the signal went up, persistent signal never ignored. WITH REQUESTS IN FLIGHT (cancel-async, reuse-async): the same oracles and the exact async model (call log with polls, executor events) under FIFO/LIFO/random completion orders.",
     },
     "C14": {
         "nt_rule": "soft_rejected_or_accepted",
@@ -291,7 +292,7 @@ PROPS = {
         "imports": ["Resolvo.Props.C15Model"],
         "theorems": ["Resolvo.C15.amo_sound", "Resolvo.C15.amo_complete_one", "Resolvo.C15.amo_complete_none",
                      "Resolvo.C15.amo_stable", "Resolvo.C15.threshold", "Resolvo.C15.pair_not_valid", "Resolvo.C15.pair_never_ok", "Resolvo.C15.single_never_unsat"],
-        "families": [("amo", {"quick": 400, "thorough": 6000}), ("amo-solve", {"quick": 1400, "thorough": 28000})],
+        "families": [("amo", {"quick": 400, "thorough": 6000}), ("amo-solve", {"quick": 1400, "thorough": 28000}), ("solve", SOLVE_Q), ("hints", HINTS_Q)],
         "assumptions": ["helper variables come from a counter distinct from candidate variables (VariableMap::next_id)"],
         "trusted_base": [],
     },
